@@ -33,3 +33,159 @@ Proof.
     try (left; reflexivity); try (right; left; reflexivity);
     right; right; eexists; (split; [ (left; reflexivity) || (right; reflexivity) | reflexivity]).
 Qed.
+
+(* ------------------------------------------------------------------------------------------ *)
+(* C08: what a single resumption of the loop does with the responders it holds, with closing
+   events, and how it behaves once the transport is dead *)
+
+Definition holds (p : point) : list N :=
+  match p with PCancel q => [q_id q] | PWait id => [id] | _ => [] end.
+
+Definition taken (i : cin) : list N := match i with InCmd (Some q) => [q_id q] | _ => [] end.
+
+Definition answered (outs : list cout) (id : N) : Prop :=
+  (exists r, In (OReply id r) outs) \/ In (ODropResp id) outs.
+
+(* the events the loop can be resumed by at a point *)
+Definition enabled (p : point) (i : cin) : bool :=
+  match i with
+  | InRecv _ => wants_recv p
+  | InCmd _ => wants_cmd p
+  | InTimeout => match p with PWindow => true | _ => false end
+  end.
+
+(* no responder is ever forgotten: after a step it has been answered, dropped (its caller sees
+   ConnectionClosed), or is still held by the loop *)
+Lemma responders_accounted : forall wf p i p' outs id,
+  enabled p i = true ->
+  cstep wf p i = (p', outs) -> In id (holds p ++ taken i) ->
+  answered outs id \/ In id (holds p').
+Proof.
+  intros wf p i p' outs id He H Hin.
+  destruct p as [ | q0 | id0 | | ]; destruct i as [[r | | e] | [q1|] | ]; cbn in He; try discriminate He;
+    cbn in H; destruct_matches H; inversion H; subst; clear H; cbn in Hin;
+    repeat match goal with
+           | H : _ \/ _ |- _ => destruct H
+           | H : False |- _ => contradiction
+           end; subst;
+    try (right; cbn; left; reflexivity);
+    left; unfold answered; cbn;
+    first [ solve [left; eexists; rewrite ?in_app_iff; cbn; eauto 6] | solve [right; rewrite ?in_app_iff; cbn; eauto 6] ].
+Qed.
+
+Lemma exited_is_silent wf i : cstep wf PExited i = (PExited, []).
+Proof. destruct i as [r | [q|] | ]; reflexivity. Qed.
+
+Definition is_closed (o : cout) : bool := match o with OClosed _ => true | _ => false end.
+Definition is_event (o : cout) : bool := match o with OEvent _ | OClosed _ => true | _ => false end.
+
+Fixpoint no_event_after_closed (outs : list cout) : bool :=
+  match outs with
+  | [] => true
+  | OClosed _ :: r => negb (existsb is_event r)
+  | _ :: r => no_event_after_closed r
+  end.
+
+Lemma events_prefix f tail :
+  no_event_after_closed (events_of f ++ tail) = no_event_after_closed tail /\
+  filter is_closed (events_of f ++ tail) = filter is_closed tail /\
+  existsb is_closed (events_of f ++ tail) = existsb is_closed tail.
+Proof. unfold events_of. induction (changed_of f) as [|n ns IH]; cbn; auto. Qed.
+
+(* a closing event is emitted only while leaving the loop, at most once, after every other event *)
+Lemma closing_event_last : forall wf p i p' outs,
+  cstep wf p i = (p', outs) ->
+  (existsb is_closed outs = true -> p' = PExited) /\
+  (length (filter is_closed outs) <= 1)%nat /\
+  no_event_after_closed outs = true.
+Proof.
+  intros wf p i p' outs H. unfold cstep in H.
+  destruct_matches H; inversion H; subst; clear H;
+    repeat match goal with
+           | |- context [events_of ?f ++ ?t] =>
+             let H1 := fresh in let H2 := fresh in let H3 := fresh in
+             destruct (events_prefix f t) as (H1 & H2 & H3); rewrite ?H1, ?H2, ?H3; clear H1 H2 H3
+           end;
+    cbn; repeat split; auto; try discriminate; try lia.
+Qed.
+
+(* ---------- once the transport is dead the loop leaves within a bounded number of steps ---------- *)
+
+(* every receive completes at once with the same terminal outcome: end of stream, failing reads,
+   or a connection poisoned by invalid data *)
+Definition terminal (r : rres) : bool := match r with RResp _ => false | _ => true end.
+
+Definition rank (p : point) : nat :=
+  match p with PIdle => 1 | PCancel _ => 1 | PWait _ => 3 | PWindow => 2 | PExited => 0 end.
+Definition mu (s : point * list request) : nat := 3 * length (snd s) + rank (fst s).
+
+Inductive dstep (r : rres) (wf : bool) : point * list request -> point * list request -> Prop :=
+  | DRecv p qs p' outs : wants_recv p = true -> cstep wf p (InRecv r) = (p', outs) -> dstep r wf (p, qs) (p', qs)
+  | DCmd p q qs p' outs : wants_cmd p = true -> cstep wf p (InCmd (Some q)) = (p', outs) -> dstep r wf (p, q :: qs) (p', qs)
+  | DClosed p p' outs : wants_cmd p = true -> cstep wf p (InCmd None) = (p', outs) -> dstep r wf (p, []) (p', [])
+  | DTimeout p' outs : cstep wf PWindow InTimeout = (p', outs) -> dstep r wf (PWindow, []) (p', []).
+
+Lemma dead_decreases r wf s s' : terminal r = true -> dstep r wf s s' -> (mu s' < mu s)%nat.
+Proof.
+  intros Ht H. destruct H as [p qs p' outs Hw H | p q qs p' outs Hw H | p p' outs Hw H | p' outs H];
+    unfold mu; cbn [fst snd length].
+  - destruct r as [x| |e]; [discriminate Ht | |];
+      destruct p; cbn in Hw; try discriminate Hw; cbn in H; inversion H; subst; cbn; lia.
+  - destruct p; cbn in Hw; try discriminate Hw; cbn in H; destruct wf; inversion H; subst; cbn; lia.
+  - destruct p; cbn in Hw; try discriminate Hw; cbn in H; inversion H; subst; cbn; lia.
+  - cbn in H; destruct wf; inversion H; subst; cbn; lia.
+Qed.
+
+(* while the loop has not left, some step is possible (the re-idle timer fires when no request is queued) *)
+Lemma dead_progress r wf p qs : p <> PExited -> exists s', dstep r wf (p, qs) s'.
+Proof.
+  intros Hp. destruct p as [ | q0 | id0 | | ]; try contradiction.
+  - destruct (cstep wf PIdle (InRecv r)) as [p' outs] eqn:E. eexists. eapply DRecv; [reflexivity | exact E].
+  - destruct (cstep wf (PCancel q0) (InRecv r)) as [p' outs] eqn:E. eexists. eapply DRecv; [reflexivity | exact E].
+  - destruct (cstep wf (PWait id0) (InRecv r)) as [p' outs] eqn:E. eexists. eapply DRecv; [reflexivity | exact E].
+  - destruct qs as [|q qs].
+    + destruct (cstep wf PWindow InTimeout) as [p' outs] eqn:E. eexists. eapply DTimeout. exact E.
+    + destruct (cstep wf PWindow (InCmd (Some q))) as [p' outs] eqn:E. eexists. eapply DCmd; [reflexivity | exact E].
+Qed.
+
+Inductive druns (r : rres) (wf : bool) : nat -> point * list request -> point * list request -> Prop :=
+  | DR0 s : druns r wf 0 s s
+  | DRS n s s1 s2 : dstep r wf s s1 -> druns r wf n s1 s2 -> druns r wf (S n) s s2.
+
+Theorem dead_bounded r wf n s s' : terminal r = true -> druns r wf n s s' -> (n + mu s' <= mu s)%nat.
+Proof.
+  intros Ht H. induction H as [s | n s s1 s2 Hs Hr IH]; [lia|].
+  pose proof (dead_decreases r wf s s1 Ht Hs). lia.
+Qed.
+
+(* hence: a maximal run from a dead transport ends in PExited after at most 3*|queue| + 3 steps *)
+Corollary dead_exits r wf n s s' : terminal r = true -> druns r wf n s s' ->
+  (forall s'', ~ dstep r wf s' s'') -> fst s' = PExited /\ (n <= 3 * length (snd s) + 3)%nat.
+Proof.
+  intros Ht H Hmax. split.
+  - destruct s' as [p qs]. cbn.
+    assert (Hd : p = PExited \/ p <> PExited) by (destruct p; (left; reflexivity) || (right; discriminate)).
+    destruct Hd as [Hd | Hd]; [exact Hd|].
+    exfalso. destruct (dead_progress r wf p qs Hd) as [s'' Hs]. exact (Hmax s'' Hs).
+  - pose proof (dead_bounded r wf n s s' Ht H). unfold mu in *. destruct (fst s); cbn in *; lia.
+Qed.
+
+(* events come only from the changed fields of the reply being handled *)
+Lemma events_come_from_reply : forall wf p i p' outs n,
+  cstep wf p i = (p', outs) -> In (OEvent n) outs ->
+  exists r f, i = InRecv (RResp r) /\ single_frame r = Some (inl f) /\ In n (changed_of f).
+Proof.
+  intros wf p i p' outs n H Hin. unfold cstep in H.
+  destruct_matches H; inversion H; subst; clear H;
+    cbn in Hin; rewrite ?in_app_iff in Hin; cbn in Hin;
+    repeat match goal with
+           | H : _ \/ _ |- _ => destruct H
+           | H : False |- _ => contradiction
+           | H : _ = OEvent _ |- _ => discriminate H
+           end;
+    match goal with
+    | H : In (OEvent n) (events_of ?f) |- _ =>
+      unfold events_of in H; apply in_map_iff in H; destruct H as (x & Hx & Hi); inversion Hx; subst;
+      eexists; exists f; repeat split; eauto
+    end.
+Qed.
